@@ -39,6 +39,9 @@ type Case struct {
 	Fault    string      `json:"fault,omitempty"`    // kind of the injected ill-typed variant ("" = none); informational
 	Probe    string      `json:"probe,omitempty"`    // deterministic-shape generator class ("early-check": see earlycheck_test.go); informational
 	Styles   []x.Style   `json:"styles"`
+	// Perturb selects the replacement values of the variable-insensitivity oracle (scope_test.go):
+	// entry i (cyclically) is the kind given to the i-th name the tree cannot see.
+	Perturb []int `json:"perturb,omitempty"`
 }
 
 func genStyle(t *rapid.T) x.Style {
@@ -87,6 +90,18 @@ func gen(t *rapid.T, template bool) Case {
 			// the root of sub-check b stays a template
 			c.Root = &x.Node{K: x.KTmpl, Parts: []*x.Part{{K: x.PLit, S: "t:"}, {K: x.PInterp, E: c.Root}}}
 		}
+	}
+	// try() / can() around the whole tree (they decide from the argument's free variables
+	// whether to defer; labels call:*, conj:*)
+	if c.Probe == "" && rapid.IntRange(0, 9).Draw(t, "trycanwrap") >= 8 {
+		w := g.TryCanWrap(c.Root)
+		if c.Template {
+			w = &x.Node{K: x.KTmpl, Parts: []*x.Part{{K: x.PInterp, E: w}}}
+		}
+		c.Root = w
+	}
+	for i := 0; i < 4; i++ {
+		c.Perturb = append(c.Perturb, rapid.IntRange(0, nPerturbKinds-1).Draw(t, "perturb"))
 	}
 	c.Styles = []x.Style{{}}
 	n := 1
@@ -243,6 +258,10 @@ func check(c Case) *core.Violation {
 		}
 		outs[i] = o
 	}
+	// (3) hclsyntax.Variables() of every parsed printing names exactly the free variables of the tree
+	if v := checkVariables(c, outs, ufs); v != nil {
+		return v
+	}
 	if mentionsUnknownVar(c) {
 		// An unknown value flows (or may flow) through the evaluation.  cty compares the
 		// attributes of two objects in Go map order and stops at the first unknown or
@@ -268,6 +287,10 @@ func check(c Case) *core.Violation {
 			return core.V("meta|value|"+kindOf(a.mode)+"~"+kindOf(b.mode),
 				"two printings of one tree evaluate differently:\n[%s] %s\n%s\n[%s] %s\n%s", a.mode, show(a.val), a.src, b.mode, show(b.val), b.src)
 		}
+	}
+	// (4) the result does not depend on names the tree cannot see
+	if v := checkInsensitive(c, outs[0], ctx); v != nil {
+		return v
 	}
 	// (2) differential
 	o := outs[0]
@@ -298,28 +321,32 @@ func check(c Case) *core.Violation {
 	return nil
 }
 
-// mentionsUnknownVar: the root or a function body names a variable whose value is unknown.
+// mentionsUnknownVar: the root or a function body has a FREE variable (scope-aware: a name
+// bound by an enclosing for-expression / %{for} directive is not the environment's variable
+// of that name) whose environment value is unknown or contains an unknown value.
 func mentionsUnknownVar(c Case) bool {
 	unk := map[string]bool{}
 	for _, v := range c.Vars {
-		if v.V.T == "unknownof" {
+		if cv, err := v.V.Cty(); err == nil && !cv.IsWhollyKnown() {
 			unk[v.Name] = true
 		}
 	}
 	if len(unk) == 0 {
 		return false
 	}
-	found := false
-	f := func(n *x.Node) {
-		if n.K == x.KVar && unk[n.Name] {
-			found = true
+	for name := range x.FreeVars(c.Root) {
+		if unk[name] {
+			return true
 		}
 	}
-	x.Walk(c.Root, f)
 	for i := range c.Funcs {
-		x.Walk(c.Funcs[i].Body, f)
+		for name := range x.FuncFreeVars(&c.Funcs[i]) {
+			if unk[name] {
+				return true
+			}
+		}
 	}
-	return found
+	return false
 }
 
 func kindOf(mode string) string {
@@ -546,6 +573,9 @@ func classify(c Case) core.Class {
 	for k := range vt {
 		cl.Labels = append(cl.Labels, "var-type:"+k)
 	}
+	sl := scopeLabels(c)
+	cl.Labels = append(cl.Labels, sl...)
+	countScopeLabels(c, sl)
 	cl.Labels = append(cl.Labels, "fault:"+fault, "depth:"+db, "nvars:"+fmt.Sprint(len(c.Vars)), "nfuncs:"+fmt.Sprint(len(c.Funcs)))
 	if mixed {
 		cl.Labels = append(cl.Labels, "mixed-precedence")
@@ -585,12 +615,15 @@ func faultClass(k string) string {
 	return k
 }
 
-const ruleCommon = "environment of 0-6 variables (numbers incl. dyadic fractions and 2^40, strings incl. numeric/boolean-looking and non-ASCII, bools, tuples, objects, cty lists / maps / sets of primitives, of objects, nested and empty, nulls of every type, unknown values), 0-3 functions defined through ext/userfunc blocks (may call earlier ones, variadic, closures over the variables) plus tryfunc try/can; a typed tree of depth<=6 over literals, variables, unary/binary arithmetic, comparison, equality across types, logic, conditional (same-typed, null, string-unification branches), tuple/object constructors (keys as bare literal name incl. true/false/null/if/for, quoted literal, number, operator expression, (k), \"${k}\", \"${k}x\", \"x${k}\", \"${k.a}\", heredoc-able \"${k}\\n\" with k a variable / for iterator / undefined name / null / keyword / non-primitive; selector variables named like one field and valued like another), index (literal, computed, string key, by variable obj[b] vs obj.b), attribute, attribute-only and full splat (incl. traversal inside the splat vs applied to its result, splat of null / single value / list), for-expressions (tuple and object form, key+value variables, if, grouping), calls (incl. argument expansion), templates (literal, ${}, %{if/else}, %{for}, ~ strip markers, passthrough of a single interpolation); with probability 0.35 one node is replaced by an ill-typed variant (16 kinds: ill-typed operator, undefined variable/function, missing attribute, index out of range / negative / fractional / into a primitive, duplicate key without grouping, null or non-primitive in a template, null operand, wrong arity, for over a primitive, non-boolean condition, bad expansion); about 0.4% of the expression roots are a fixed-shape probe (for-expression whose if clause holds a conditional that unifies only for the real key type) that meets the known early-condition-check finding. Every tree is printed 2-3 times: canonical minimal spelling and random spellings (redundant parentheses, spacing, tabs, newlines and # // /* */ comments where insignificant, ':' vs '=' and newline vs comma in object constructors, trailing commas, x.0 vs x[0], .* vs [*], number spellings 1e3 / 2.50 / 25e-1, \\xHH byte escapes (the fork's own escape), quoted vs heredoc vs flush heredoc with extra indentation). Oracle: all printings RawEqual and same error-ness; reference evaluator (exact rationals) says value => no error diagnostic and same value+type; says error => error diagnostic; trees leaving the documented semantics (README.md) are checked metamorphically only. Non-trivial: an operator with an unparenthesised operand of another precedence level in the minimal spelling, or a for-expression / splat / template directive; distinct = (feature set: operators, conditional, access/splat, for, call, template | depth bucket | fault kind | set of printing modes)"
+const ruleCommon = "environment of 0-6 variables (numbers incl. dyadic fractions and 2^40, strings incl. numeric/boolean-looking and non-ASCII, bools, tuples, objects, cty lists / maps / sets of primitives, of objects, nested and empty, nulls of every type, unknown values), 0-3 functions defined through ext/userfunc blocks (may call earlier ones, variadic, closures over the variables) plus tryfunc try/can; a typed tree of depth<=6 over literals, variables, unary/binary arithmetic, comparison, equality across types, logic, conditional (same-typed, null, string-unification branches), tuple/object constructors (keys as bare literal name incl. true/false/null/if/for, quoted literal, number, operator expression, (k), \"${k}\", \"${k}x\", \"x${k}\", \"${k.a}\", heredoc-able \"${k}\\n\" with k a variable / for iterator / undefined name / null / keyword / non-primitive; selector variables named like one field and valued like another), index (literal, computed, string key, by variable obj[b] vs obj.b), attribute, attribute-only and full splat (incl. traversal inside the splat vs applied to its result, splat of null / single value / list), for-expressions (tuple and object form, key+value variables, if, grouping), calls (incl. argument expansion), templates (literal, ${}, %{if/else}, %{for}, ~ strip markers, passthrough of a single interpolation); with probability 0.35 one node is replaced by an ill-typed variant (16 kinds: ill-typed operator, undefined variable/function, missing attribute, index out of range / negative / fractional / into a primitive, duplicate key without grouping, null or non-primitive in a template, null operand, wrong arity, for over a primitive, non-boolean condition, bad expansion); about 0.4% of the expression roots are a fixed-shape probe (for-expression whose if clause holds a conditional that unifies only for the real key type) that meets the known early-condition-check finding. Every tree is printed 2-3 times: canonical minimal spelling and random spellings (redundant parentheses, spacing, tabs, newlines and # // /* */ comments where insignificant, ':' vs '=' and newline vs comma in object constructors, trailing commas, x.0 vs x[0], .* vs [*], number spellings 1e3 / 2.50 / 25e-1, \\xHH byte escapes (the fork's own escape), quoted vs heredoc vs flush heredoc with extra indentation). Oracle: all printings RawEqual and same error-ness; reference evaluator (exact rationals) says value => no error diagnostic and same value+type; says error => error diagnostic; trees leaving the documented semantics (README.md) are checked metamorphically only. Non-trivial: an operator with an unparenthesised operand of another precedence level in the minimal spelling, or a for-expression / splat / template directive; distinct = (feature set: operators, conditional, access/splat, for, call, template | depth bucket | fault kind | set of printing modes)" + ruleScope
+
+// name binding (scope_test.go, internal/exprgen/scope.go, gen_scope.go)
+const ruleScope = ". NAME BINDING: the names of iteration variables (for-expressions and %{for} directives) are drawn from a small pool shared with the environment (30% of the environment names come from x/k/v/i), from the visible environment variables / function parameters (the loop SHADOWS them; half of the time one whose value is unknown) and from the variables of the enclosing loops (the inner loop RE-BINDS the name: about 2 in 3 trees with nested loops), with uses of the name before, inside and after the inner loop in one clause (natural in tuple / object constructors, operators and template bodies, plus a 'sandwich' constructor [use, inner loop binding the same name - often `for x in x` -, use][i] / {p = use, q = loop, r = use}.r placed in any clause of a loop); the environment also holds cty.UnknownVal of every generated type, cty.DynamicVal and known tuples / objects / lists / maps that CONTAIN an unknown at some depth (about 1 variable in 4), also under names that loops shadow; try() / can() stand anywhere in the tree and additionally wrap the whole root (2 in 10: try(root), try(root, fallback), can(root)). Extra oracles: (3) the root names of hclsyntax.Variables(expr) of every parsed printing and of every user-function body equal the free variables computed by the harness's own scope-aware walk over the generated tree; (4) when no free variable of the tree or of a function body holds an unknown, the tree is evaluated again in an environment in which every name it cannot see (environment variables that are not free, names bound only by its loops) is replaced by cty.DynamicVal / an unknown string / an unknown list / an object or tuple containing an unknown / a known string / nothing, and error-ness and value must be unchanged; the reference evaluator and the 'unknown involved' exemption are scope-aware (only FREE names that hold unknowns exempt a case; try/can defer only for free names), so a shadowed unknown is under the full differential oracle. Labels scope:*, call:*, unknown:*, conj:* (conjunctions try/can x re-bound-name-used-after-the-inner-loop x environment-holds-that-name-unknown); their rates per 10000 cases are recorded as the extra key name_binding_classes_per_10000_cases because the histogram keeps the 60 most frequent labels only"
 
 var assumptions = []string{
 	"number literals are integers or dyadic fractions so that cty's 512-bit floats are exact; results needing more than 300 bits, non-dyadic quotients, division by zero, modulo outside naturals are not compared with the reference",
 	"string->number conversion is asserted only for strict decimal strings, string->bool only for \"true\"/\"false\"",
-	"no marks; when an unknown variable is named anywhere in the case only 'parses, no panic' is asserted (cty's object equality with unknown attributes depends on Go map order); order-sensitive results over sets with >1 element, splats of sets / null sequences: metamorphic only",
+	"no marks; when a variable whose value is or contains an unknown is FREE in the tree or in a function body (named outside every loop that binds the name) only 'parses, no panic, Variables() correct' is asserted (cty's object equality with unknown attributes depends on Go map order); a name bound by every enclosing loop is not the environment's variable and its unknown value must not matter; order-sensitive results over sets with >1 element, splats of sets / null sequences: metamorphic only",
 	"strip markers are generated only next to whitespace runs with at most one newline which ends the run (otherwise the per-line tokenisation of heredocs and the single token of quoted strings give different readings of 'the adjacent literal')",
 	"errors in an unselected conditional branch, null arguments to user functions, duplicate keys in an object constructor, equality of collections containing untyped nulls: metamorphic oracle only",
 }
